@@ -17,7 +17,7 @@ RULE = ("state = digest of (pending request tables by kind with ids, completion 
 ASSUMPTIONS = [
     "at most 3 requests outstanding; histories up to depth 6 (quick) / 8 (thorough; the 8th event "
     "is restricted: API calls to call(on_progress+details), acknowledged publish, subscribe, "
-    "register, unsubscribe, unregister; reply payload shapes to none / args+kwargs)",
+    "register, unsubscribe, unregister; payload shape of final replies to args+kwargs)",
     "payload shapes of replies {none, one arg, two args, kwargs, args+kwargs}; payload values are "
     "representatives derived from the request id (distinct per request) and VERIF_SEED",
     "request payload shape in deep histories rotates with the API call index; the full product API "
@@ -698,7 +698,7 @@ def job(a):
             w = _rebuild(h, idseed, seed)
             evals += 1
             al = allowed(h)
-            sc, nc = w.enabled(maxout, apis, al, SHAPES if level < full_depth else ["none", "both"])
+            sc, nc = w.enabled(maxout, apis, al, SHAPES if level < full_depth else ["both"])
             # events that must not change the state: applied one after the other on one object
             own_h = owned(h) or (a.get("root") and not h)
             for ev in (nc if own_h else []):
